@@ -141,3 +141,17 @@ Proof. intro H. unfold eval_custom. rewrite eval_total, H. reflexivity. Qed.
 (* otherwise the verdict is the template verdict of the structural token list *)
 Theorem eval_custom_is_classify_of_tokens bs v ts : toks (length bs) bs = Some ts -> eval_custom bs v = classify ts v.
 Proof. intro H. unfold eval_custom. rewrite eval_total, H. reflexivity. Qed.
+
+(* "absent for every other script": only P2PKH, P2PK and P2SH carry an address *)
+Theorem fork_address_only_for_address_types bs v a : snd (eval_custom bs v) = Some a -> In (fst (eval_custom bs v)) [PP2PKH; PP2PK; PP2SH].
+Proof.
+  unfold eval_custom. destruct (eval bs) as [ts| | |]; try discriminate. unfold classify.
+  destruct Published.addr_slots as [[s_pkh s_pk] s_sh].
+  destruct (first_match ts Published.templates) as [tag|]; [|discriminate].
+  destruct (N.eq_dec tag 3) as [->|N3]; [destruct (data_at ts s_pkh); [intros _; cbn; tauto|discriminate]|].
+  destruct (N.eq_dec tag 2) as [->|N2]; [destruct (data_at ts s_pk); [intros _; cbn; tauto|discriminate]|].
+  destruct (N.eq_dec tag 4) as [->|N4]; [destruct (data_at ts s_sh); [intros _; cbn; tauto|discriminate]|].
+  destruct (N.eq_dec tag 0) as [->|N0]; [destruct (data_at ts 1); discriminate|].
+  destruct (N.eq_dec tag 1) as [->|N1]; [destruct (data_at ts 1); discriminate|].
+  destruct tag as [|p]; [congruence|]. destruct p as [[p|p|]|[[p|p|]|[p|p|]|]|]; try congruence; discriminate.
+Qed.
